@@ -13,7 +13,7 @@ from models import formats as F
 from models import gen as G
 from sim import core, imgsim, streams
 from sim.runner import Check
-from sim.streams import SimSource
+from sim.streams import ReadintoSource, SimSource
 
 PHASES = ('before', 'after', 'post_process', 'region_complete')
 EXCS = ('RuntimeError', 'ValueError', 'struct.error', 'ImageFormatError',
@@ -69,6 +69,8 @@ class History:
         self.ended = None     # how the reader's loop ended
         self.at_cut = None    # snapshot taken when an exception surfaced
         self.drained = False
+        self.after_cut = []   # sizes of chunks handed out after the abort
+        self.oversized = []   # read(n) that returned more than n bytes
 
 
 def instrument(insp, name, faults, hist):
@@ -170,9 +172,32 @@ def _run_session(data, case, faults, src_fault):
     # answered with b'' without being EOF)
     plan = sizes if (pers == 'iter' or case.get('read0')) else \
         [x for x in sizes if x > 0]
-    src = SimSource(data, plan, fault=src_fault)
+    cls = ReadintoSource if (pers == 'file' and case.get('readinto')) \
+        else SimSource
+    src = cls(data, plan, fault=src_fault)
+    allowed = case.get('allowed')
+    allowed_obj = list(allowed) if allowed is not None else None
+    pre = case.get('presession')
+    if pre:
+        # an earlier stream in the same process, set up from the same
+        # caller-owned allowed_formats list: whatever its inspectors did must
+        # not matter to the stream under test
+        pdata, _pi = F.build(pre['content'])
+        psrc = SimSource(pdata, streams.uniform_sizes(len(pdata),
+                                                      pre['chunk']))
+        pw = m.InspectWrapper(psrc, expected_format=pre.get('expected'),
+                              allowed_formats=allowed_obj)
+        try:
+            for _c in pw:
+                pass
+        except Exception:
+            pass
+        try:
+            pw.close()
+        except Exception:
+            pass
     w = m.InspectWrapper(src, expected_format=case.get('expected'),
-                         allowed_formats=case.get('allowed'))
+                         allowed_formats=allowed_obj)
     imgsim.order_inspectors(w, case['order'])
     hist = History()
     for name, insp in imgsim.wrapper_inspectors(w).items():
@@ -195,7 +220,10 @@ def _run_session(data, case, faults, src_fault):
                     req = 0
                 if op < len(plan) and req > plan[op]:
                     hist.short_reads += 1
+                src.current_req = req
                 chunk = w.read(req)
+                if len(chunk) > req:
+                    hist.oversized.append((op, req, len(chunk)))
                 if not chunk and req > 0:
                     hist.got.append(chunk)
                     hist.ended = 'eof'
@@ -220,14 +248,17 @@ def _run_session(data, case, faults, src_fault):
         # afterwards only "a failed inspector is never fed again" is
         hist.at_cut = {'eats': {n: list(v) for n, v in hist.eats.items()},
                        'reads': src.reads, 'delivered': len(src.delivered),
-                       'after_raise': dict(hist.after_raise)}
+                       'after_raise': dict(hist.after_raise),
+                       'state': {n: list(v) for n, v in hist.state.items()}}
         for _k in range(case['drain']):
             try:
                 if pers == 'file':
-                    if not w.read(512):
+                    c2 = w.read(512)
+                    if not c2:
                         break
                 else:
-                    next(w)
+                    c2 = next(w)
+                hist.after_cut.append(len(c2))
             except core.StepCapExceeded:
                 raise
             except StopIteration:
@@ -254,24 +285,44 @@ def judge(case, hist, src, w, close_exc, viol):
     reads = src.reads
     after_raise = hist.after_raise
     if hist.at_cut is not None:
+        st0 = hist.at_cut['state'].get(expected) or []
+        rz0 = hist.raised.get(expected)
+        mm = [i for i, t in enumerate(st0) if t[0] is True and t[1] is False]
+        if mm and (rz0 is None or rz0[0] > mm[0]):
+            hist.at_cut['kind'] = 'mismatch'
         # the reader went on after the abort: rules about the stream up to
         # the cut use the snapshot
         delivered = src.delivered[:hist.at_cut['delivered']]
         eats = hist.at_cut['eats']
         reads = hist.at_cut['reads']
         after_raise = hist.at_cut['after_raise']
+        if hist.after_cut and hist.at_cut.get('kind') == 'mismatch':
+            # the expected format's inspector is complete and does not
+            # match: that does not change any more, the stream stays cut off
+            viol('data_delivered_after_mismatch_cutoff',
+                 chunks=hist.after_cut[:5], expected=expected)
         for n, cnt in hist.after_raise.items():
             if n != expected and cnt > after_raise.get(n, 0):
                 viol('failed_inspector_fed_again', inspector=n,
                      calls=cnt, failed_at=hist.raised[n][0],
                      after_abort=True)
                 break
+    # (4b) every inspector the configuration calls for takes part (it is
+    # not lost because of what an earlier stream did)
+    want_names = [x for x in F.FORMATS
+                  if not case.get('allowed') or x in case['allowed']]
+    missing = [x for x in want_names if x not in names]
+    if missing and names:
+        viol('inspector_not_offered_stream', inspector=missing[0],
+             offered=[], wanted=[], n_offered=0,
+             n_wanted=len(delivered), missing_from_wrapper=True)
     # failures that happened up to the cut (a drain may add later ones)
     raised = {n: r for n, r in hist.raised.items() if r[0] < len(eats[n])}
     # (1) transparency
     k = len(hist.got)
-    if hist.got != delivered[:k] or any(
-            a is not b for a, b in zip(hist.got, delivered)):
+    # (equality, not identity: a wrapper may legitimately copy, for example
+    # when it reads through readinto)
+    if hist.got != delivered[:k]:
         viol('bytes_altered', got=[len(c) for c in hist.got[:8]],
              source=[len(c) for c in delivered[:8]])
     # which chunk, if any, cuts the stream off by rule (5)
@@ -319,6 +370,9 @@ def judge(case, hist, src, w, close_exc, viol):
     if src.raised is not None and surf is not None and \
             surf[1] is src.raised and hist.got != delivered:
         viol('bytes_before_source_error_lost')
+    if hist.oversized:
+        viol('read_returned_more_than_requested', op=hist.oversized[0][0],
+             requested=hist.oversized[0][1], returned=hist.oversized[0][2])
     # (1b) the stream is not ended early: iteration stops only when the
     # source stopped, and nothing of what the source holds is withheld
     if surf is None and hist.ended == 'stop' and not src.stopped:
@@ -471,8 +525,15 @@ class C06(Check):
         case = {'content': rec, 'pers': pers, 'fam': fam, 'rle': r, 'ask': ask,
                 'debuglog': crng.random() < 0.3, 'read0': pers == 'file',
                 'drain': crng.choice((0, 0, 1, 3)),
+                'readinto': crng.random() < 0.5,
                 'expected': expected, 'allowed': allowed, 'order': order,
                 'sweep': sweep, 'faults': [], 'src_fault': None}
+        prng = st('presession')
+        if prng.random() < 0.2:
+            _c2, rec2 = G.gen_content(prng)
+            case['presession'] = {
+                'content': rec2, 'chunk': prng.choice((512, 4096, 65536)),
+                'expected': prng.choice((None, None, prng.choice(F.FORMATS)))}
         if not sweep:
             frng = st('faults')
             nch = max(1, streams.n_chunks(r))
@@ -553,6 +614,10 @@ class C06(Check):
             self.bump('probes', 'debug_logging_rendered')
         if hist.drained:
             self.bump('probes', 'reader_went_on_after_abort')
+        if case.get('presession'):
+            self.bump('probes', 'earlier_stream_in_same_process')
+        if getattr(src, 'readinto_calls', 0):
+            self.bump('probes', 'source_read_through_readinto')
         if src.closed == 1:
             self.bump('probes', 'source_closed_exactly_once')
         self.bump('sim', 'bytes', src.pos)
@@ -586,7 +651,8 @@ class C06(Check):
                 cutkind = 'mismatch'
         log.add('session', [(f['insp'], f['at'], f['phase']) for f in faults],
                 src_fault, case.get('ask'), bool(case.get('debuglog')),
-                case.get('drain'),
+                case.get('drain'), bool(case.get('readinto')),
+                bool(case.get('presession')),
                 len(hist.got), src.reads,
                 None if hist.surfaced is None else
                 (hist.surfaced[0], type(hist.surfaced[1]).__name__),
@@ -641,6 +707,11 @@ class C06(Check):
             c = copy.deepcopy(case)
             c['drain'] = 0
             yield c
+        for key in ('presession', 'readinto'):
+            if case.get(key):
+                c = copy.deepcopy(case)
+                c[key] = None
+                yield c
         sizes = streams.expand(case['rle'])
         tot = sum(sizes)
         for ns in ([tot], streams.uniform_sizes(tot, max(1, tot // 2)),
